@@ -422,6 +422,16 @@ func (ds *dataSet) Left() int64 {
 	return l
 }
 
+// AofRight returns the right edge of the aof segments, ok is false if there is none
+func (ds *dataSet) AofRight() (int64, bool) {
+	ds.mux.Lock()
+	defer ds.mux.Unlock()
+	if len(ds.aofSegs) == 0 {
+		return -1, false
+	}
+	return ds.aofSegs[len(ds.aofSegs)-1].Right(), true
+}
+
 func (ds *dataSet) Right() int64 {
 	ds.mux.Lock()
 	defer ds.mux.Unlock()
